@@ -103,7 +103,7 @@ class C02(Prop):
                 op["peer"]["force_solver"] = True
                 op["cfg"]["eig"] = 0.05
         plan["ops"] += post_solve_ops(rng, plan, k=rng.choice([2, 4, 6]))
-        plan["opts"] = {"oracles": ["attr_primal", "handles", "primal", "immut"]}
+        plan["opts"] = {"oracles": ["attr_primal", "handles", "primal"]}
         return plan
 
     def judge(self, plan, res):
